@@ -280,6 +280,7 @@ func runC19(p *Prog, r *Report) {
 	noScannerRule(p, r, "C19.R10")
 	localConfigNameRule(p, r, "C19.R11")
 	localsKeyRule(p, r, "C19.R12")
+	everyGenDeclRule(p, r, "C19.R13")
 }
 
 // docOrigin: e is parse.CommentToString(X.Doc) (possibly via a local variable or a
